@@ -1265,10 +1265,10 @@ def buffer : Call → Option Bytes
 
 def size (c : Call) : Nat := (c.buffer.map List.length).getD 0
 
-/-- the buffer is addressable, below 2 GiB, and the loop fuel covers it -/
+/-- the buffer is addressable (its memory below 2^63 bytes; no bound on the buffer's own length) and the loop fuel covers it -/
 def Ok : Call → Prop
   | null _ _ _ => True
-  | buf pre b post fuel => 0 < pre.length ∧ b.length < 2 ^ 31 ∧ (pre ++ b ++ post).length < 2 ^ 63 ∧ b.length ≤ fuel
+  | buf pre b post fuel => 0 < pre.length ∧ (pre ++ b ++ post).length < 2 ^ 63 ∧ b.length ≤ fuel
 
 open AsamCmp.SrcGen AsamCmp.Src in
 /-- the translated source run on this call -/
@@ -1303,13 +1303,13 @@ theorem src_call (t : Table) (c : Call) (N : Nat) (hc : c.Ok) (hT : C17b.TableOk
     exact ⟨t, [], h1, hT, by rw [Call.buffer, h2], by rw [Call.buffer, h2]; rfl, by
       have := hreg; rw [Call.buffer, h2] at this; exact this⟩
   | buf pre b post fuel =>
-    obtain ⟨hpre, hlen, hmem, hf⟩ := hc
+    obtain ⟨hpre, hmem, hf⟩ := hc
     by_cases h8 : b.length < 8
     · obtain ⟨h1, h2⟩ := SrcDec.decode_total_short_src t (pre ++ b ++ post) b pre.length fuel hpre h8
       exact ⟨t, [], h1, hT, by rw [Call.buffer, h2], by rw [Call.buffer, h2]; rfl, by
         have := hreg; rw [Call.buffer, h2] at this; exact this⟩
     · obtain ⟨t', outs, k1, k2, k3, k4⟩ := SrcDec.decode_total_src t pre b post fuel hT
-        (tableReg_of_state t N hT hN hbound) hpre (by omega) hlen hmem hf
+        (tableReg_of_state t N hT hN hbound) hpre (by omega) hmem hf
       refine ⟨t', outs, k1, k2, k3, k4, ?_⟩
       rw [k3]
       exact hreg
